@@ -1,5 +1,6 @@
 import Pkgcore.Spec.C25
 import Pkgcore.Proofs.C28
+import Pkgcore.Proofs.C24
 /-! # C25 helper lemmas -/
 namespace Pkgcore.C25
 open Pkgcore.C24 Pkgcore.C25.Spec
@@ -1756,5 +1757,151 @@ theorem relocatable_of_check (raw : List Obj) (h : relocatableB raw = true) : Re
   rcases h5 a ha b hb with h | h
   · exact absurd e (by simpa using h)
   · exact h
+
+
+/-! ## normalised absolute locations satisfy `PathOK` and `LocNorm` -/
+
+/-- a normalised absolute location: `/` followed by non-empty components without slash other than `.` and `..` -/
+def GoodComp (c : Str) : Prop := c ≠ [] ∧ '/' ∉ c ∧ c ≠ ['.'] ∧ c ≠ ['.', '.']
+
+theorem splitOn_joinWith (comps : List Str) (hne : comps ≠ []) (h : ∀ c ∈ comps, '/' ∉ c) :
+    splitOn '/' (joinWith '/' comps) = comps := by
+  induction comps with
+  | nil => exact absurd rfl hne
+  | cons x r ih =>
+    cases r with
+    | nil => simp only [joinWith]; exact splitOn_nosep _ _ (h x (by simp))
+    | cons y r' =>
+      have e : joinWith '/' (x :: y :: r') = x ++ '/' :: joinWith '/' (y :: r') := rfl
+      rw [e, splitOn_append_sep, splitOn_nosep _ _ (h x (by simp)), ih (by simp) (fun c hc => h c (by simp [hc]))]
+      rfl
+
+theorem joinWith_snoc (comps : List Str) (hne : comps ≠ []) (h : ∀ c ∈ comps, c ≠ [] ∧ '/' ∉ c) :
+    ∃ a c, joinWith '/' comps = a ++ [c] ∧ c ≠ '/' := by
+  induction comps with
+  | nil => exact absurd rfl hne
+  | cons x r ih =>
+    cases r with
+    | nil =>
+      obtain ⟨hx, hs⟩ := h x (by simp)
+      refine ⟨x.dropLast, x.getLast hx, by simp [joinWith, List.dropLast_concat_getLast], ?_⟩
+      intro e; exact hs (e ▸ List.getLast_mem hx)
+    | cons y r' =>
+      obtain ⟨a, c, ha, hc⟩ := ih (by simp) (fun c hc => h c (by simp [hc]))
+      refine ⟨x ++ '/' :: a, c, ?_, hc⟩
+      have e : joinWith '/' (x :: y :: r') = x ++ '/' :: joinWith '/' (y :: r') := rfl
+      rw [e, ha]; simp
+
+theorem joinWith_head (comps : List Str) (hne : comps ≠ []) (h : ∀ c ∈ comps, c ≠ [] ∧ '/' ∉ c) :
+    ∃ c rest, joinWith '/' comps = c :: rest ∧ c ≠ '/' := by
+  cases comps with
+  | nil => exact absurd rfl hne
+  | cons x r =>
+    obtain ⟨hx, hs⟩ := h x (by simp)
+    cases x with
+    | nil => exact absurd rfl hx
+    | cons c cs =>
+      refine ⟨c, (joinWith '/' (cs :: r)), joinWith_cons_cons _ _ _ _, ?_⟩
+      intro e; exact hs (by simp [e])
+
+theorem normFold_good (initial : Nat) (acc comps : List Str) (h : ∀ c ∈ comps, GoodComp c) :
+    comps.foldl (fun (acc : List Str) comp =>
+      if comp = [] ∨ comp = ['.'] then acc
+      else if comp ≠ ['.', '.'] ∨ (initial = 0 ∧ acc = []) ∨ acc.getLast? = some ['.', '.'] then acc ++ [comp]
+      else acc.dropLast) acc = acc ++ comps := by
+  induction comps generalizing acc with
+  | nil => simp
+  | cons c r ih =>
+    obtain ⟨h1, _, h3, h4⟩ := h c (by simp)
+    simp only [List.foldl_cons]
+    rw [if_neg (by simp [h1, h3]), if_pos (Or.inl h4), ih _ (fun c hc => h c (by simp [hc]))]
+    simp
+
+theorem normpath_dot_slash (comps : List Str) (hne : comps ≠ []) (h : ∀ c ∈ comps, GoodComp c) :
+    normpath ('/' :: '.' :: '/' :: joinWith '/' comps) = '/' :: joinWith '/' comps := by
+  have hs : splitOn '/' ('/' :: '.' :: '/' :: joinWith '/' comps) = [] :: ['.'] :: comps := by
+    have e : ('/' :: '.' :: '/' :: joinWith '/' comps) = [] ++ '/' :: (['.'] ++ '/' :: joinWith '/' comps) := rfl
+    rw [e, splitOn_append_sep, splitOn_append_sep, splitOn_joinWith comps hne (fun c hc => (h c hc).2.1)]
+    rfl
+  have hinit : (if ('/' :: '.' :: '/' :: joinWith '/' comps).head? = some '/' then
+      (if (List.drop 1 ('/' :: '.' :: '/' :: joinWith '/' comps)).head? = some '/' ∧
+          (List.drop 2 ('/' :: '.' :: '/' :: joinWith '/' comps)).head? ≠ some '/' then 2 else 1) else 0) = 1 := by
+    simp
+  unfold normpath
+  simp only [hs, hinit]
+  have hf := normFold_good 1 [] comps h
+  simp only [List.nil_append] at hf
+  have hfold : List.foldl (fun (acc : List Str) comp =>
+      if comp = [] ∨ comp = ['.'] then acc
+      else if comp ≠ ['.', '.'] ∨ (1 = 0 ∧ acc = []) ∨ acc.getLast? = some ['.', '.'] then acc ++ [comp]
+      else acc.dropLast) [] ([] :: ['.'] :: comps) = comps := by
+    simp only [List.foldl_cons, true_or, or_true, if_true]
+    exact hf
+  rw [hfold]
+  simp
+
+theorem pathOK_of_normal (comps : List Str) (hne : comps ≠ []) (h : ∀ c ∈ comps, GoodComp c) :
+    PathOK ('/' :: joinWith '/' comps) := by
+  have hg : ∀ c ∈ comps, c ≠ [] ∧ '/' ∉ c := fun c hc => ⟨(h c hc).1, (h c hc).2.1⟩
+  obtain ⟨c0, rest, hj, hc0⟩ := joinWith_head comps hne hg
+  obtain ⟨a, cl, hl, hcl⟩ := joinWith_snoc comps hne hg
+  have hrel : relName ('/' :: joinWith '/' comps) = '.' :: '/' :: joinWith '/' comps := by
+    unfold relName lstripSlash
+    rw [hj]
+    simp [List.dropWhile, hc0]
+  have hstrip : stripSlash ('.' :: '/' :: joinWith '/' comps) = '.' :: '/' :: joinWith '/' comps := by
+    unfold stripSlash
+    have h1 : List.dropWhile (· = '/') ('.' :: '/' :: joinWith '/' comps) = '.' :: '/' :: joinWith '/' comps := by
+      simp [List.dropWhile]
+    rw [h1, hl]
+    have : ('.' :: '/' :: (a ++ [cl])).reverse = cl :: ('.' :: '/' :: a).reverse := by simp
+    rw [this]
+    simp [List.dropWhile, hcl]
+  refine ⟨?_, ?_, ?_⟩
+  · unfold absLoc
+    rw [hrel, hstrip, normpath_dot_slash comps hne h]
+  · unfold absLink
+    rw [hrel]
+    have hh : ¬ (('.' :: '/' :: joinWith '/' comps).head? = some '/') := by simp
+    rw [if_neg hh, normpath_dot_slash comps hne h]
+  · rw [hj]; simp
+
+
+theorem normpath_normal (comps : List Str) (hne : comps ≠ []) (h : ∀ c ∈ comps, GoodComp c) :
+    normpath ('/' :: joinWith '/' comps) = '/' :: joinWith '/' comps := by
+  have hg : ∀ c ∈ comps, c ≠ [] ∧ '/' ∉ c := fun c hc => ⟨(h c hc).1, (h c hc).2.1⟩
+  obtain ⟨c0, rest, hj, hc0⟩ := joinWith_head comps hne hg
+  have hs : splitOn '/' ('/' :: joinWith '/' comps) = [] :: comps := by
+    have e : ('/' :: joinWith '/' comps) = [] ++ '/' :: joinWith '/' comps := rfl
+    rw [e, splitOn_append_sep, splitOn_joinWith comps hne (fun c hc => (h c hc).2.1)]
+    rfl
+  have hinit : (if ('/' :: joinWith '/' comps).head? = some '/' then
+      (if (List.drop 1 ('/' :: joinWith '/' comps)).head? = some '/' ∧
+          (List.drop 2 ('/' :: joinWith '/' comps)).head? ≠ some '/' then 2 else 1) else 0) = 1 := by
+    rw [hj]; simp [hc0]
+  unfold normpath
+  simp only [hs, hinit]
+  have hf := normFold_good 1 [] comps h
+  simp only [List.nil_append] at hf
+  have hfold : List.foldl (fun (acc : List Str) comp =>
+      if comp = [] ∨ comp = ['.'] then acc
+      else if comp ≠ ['.', '.'] ∨ (1 = 0 ∧ acc = []) ∨ acc.getLast? = some ['.', '.'] then acc ++ [comp]
+      else acc.dropLast) [] ([] :: comps) = comps := by
+    simp only [List.foldl_cons, true_or, if_true]
+    exact hf
+  rw [hfold]
+  simp
+
+/-- every normalised absolute location satisfies the hypothesis `LocNorm` of the relocation theorems -/
+theorem locNorm_of_normal (comps : List Str) (hne : comps ≠ []) (h : ∀ c ∈ comps, GoodComp c) :
+    LocNorm ('/' :: joinWith '/' comps) := by
+  have hg : ∀ c ∈ comps, c ≠ [] ∧ '/' ∉ c := fun c hc => ⟨(h c hc).1, (h c hc).2.1⟩
+  obtain ⟨a, cl, hl, hcl⟩ := joinWith_snoc comps hne hg
+  unfold LocNorm cnPrefix
+  rw [normpath_normal comps hne h, hl]
+  have : ('/' :: (a ++ [cl])).reverse = cl :: ('/' :: a).reverse := by simp
+  rw [this]
+  simp [List.dropWhile, hcl]
+
 
 end Pkgcore.C25
